@@ -191,7 +191,7 @@ fn let_bound_names(e: &Expr, out: &mut Vec<String>) {
 
 /// the shape the listed let finding needs: somewhere in the program a branch of a conditional mentions a let / assign bound name
 /// (`extra`: names bound by a let the harness itself put around the expression)
-fn branch_mentions_a_let_bound_name(p: &Program, extra: &[String]) -> bool {
+pub fn branch_mentions_a_let_bound_name(p: &Program, extra: &[String]) -> bool {
     let mut names: Vec<String> = extra.to_vec();
     let_bound_names(&p.body, &mut names);
     for h in p.helpers.iter() {
@@ -508,7 +508,7 @@ pub fn run(cfg: &Cfg) -> i32 {
                                     _ => {
                                         ok = false;
                                         let mut sig = judge_shape(&mut out);
-                                        if sig.is_none() && free_names.iter().any(|n| r.contains(&format!("{n}_$_"))) {
+                                        if sig.is_none() && (free_names.iter().any(|n| r.contains(&format!("{n}_$_"))) || (r.contains("(lambda") && r.contains("_$_"))) {
                                             // listed finding: a free variable captured by a lambda comes back renamed (A1_$_362566) in the residual,
                                             // a name that is bound nowhere
                                             sig = Some("repl:free-variable-captured-by-a-lambda-is-renamed-in-the-residual");
@@ -620,7 +620,11 @@ pub fn run(cfg: &Cfg) -> i32 {
                                             found
                                         };
                                         let quoted_name = quoted_name || branch_mentions_a_variable(&case.prog);
-                                        let sig = if quoted_name { Some("repl:free-variable-in-conditional-branch-is-quoted-as-its-name") } else if quoted_gensym { Some("repl:let-bound-variable-in-conditional-branch-becomes-its-name") } else { None };
+                                        let lambda_keeps_generated_names = r.contains("(lambda") && r.contains("_$_");
+                                        let sig = if lambda_keeps_generated_names && !quoted_name {
+                                            // listed finding: a lambda left in the residual keeps generated names for its captures / parameters
+                                            Some("repl:free-variable-captured-by-a-lambda-is-renamed-in-the-residual")
+                                        } else if quoted_name { Some("repl:free-variable-in-conditional-branch-is-quoted-as-its-name") } else if quoted_gensym { Some("repl:let-bound-variable-in-conditional-branch-becomes-its-name") } else { None };
                                         out.violation(json!({"kind":"residual_program_disagrees_with_the_original","engine":"c16","sig":sig,"case":id,"definitions":defs,"expression":trunc(&body,1200),"residual":trunc(&r,1200),"args":a.show(),"original_returns":w.show(),"residual_returns":got.show()}));
                                     }
                                 }
